@@ -191,7 +191,8 @@ def final_link_not_followed_under_nofollow(ctx, rid="C07.R2"):
     dead = [e.key() for bb in cfg.succ for e in cfg.succ[bb] if e.key() not in feas]
     hdrs = list(cfg.natural_loops())
     start = [e for (_t, be) in gates for e in be["true"] if e.key() in feas]
-    reach = cfg.edge_targets_reachable(start, cut_nodes=hdrs, cut_edges=dead)
+    # precise_reach: only paths consistent with the enum variants built on them (Ok(Some(fd)) is not matched by a None arm)
+    reach = cfg.precise_reach(start, cut_nodes=hdrs, cut_edges=dead)
     bad = [r for r in rl if r.bb in reach]
     if bad:
         return [violated(rid, key, bad[0].where(), "with O_NOFOLLOW in the open flags the emulated procfs walk can still read and follow the body of the final component (a trailing symlink is followed although the caller forbade it)")]
